@@ -23,6 +23,7 @@ Extra(r) ==
            LET cout == Cat(r.chunks) IN r.dest = Forwarded(cout) /\ r.flushErr = ~FlushOk(cout)
       [] r.obj = "flatereader" -> r.got = SuffixedRead(r.src)
       [] r.obj \in {"cipherreader", "cipherwriter"} -> r.got = r.want
+      [] r.obj = "flatereal" -> r.roundtrip
       [] OTHER -> TRUE
 
 Ok(r) == r.k = "reuse" /\ r.reused = r.fresh /\ Extra(r)
